@@ -148,6 +148,27 @@ def load_text(schema, text, overrides=(), url=None, rec=None):
     return {"r": "ok", "tree": tree}, (cfg, handler)
 
 
+_REUSED = {}
+
+
+def load_text_reused(schema, text, rec=None, url="file:///zcv-one-loader/main.conf"):
+    """The text through one long-lived ConfigLoader per schema object (and worker process), always under the
+    same URL: what an application does that reads its configuration file again."""
+    import ZConfig.loader
+    if id(schema) not in _REUSED:
+        _REUSED[id(schema)] = (schema, ZConfig.loader.ConfigLoader(schema))
+    ld = _REUSED[id(schema)][1]
+    try:
+        cfg, handler = ld.loadFile(io.StringIO(text), url)
+    except Exception as e:
+        return project.exc_outcome(e), None
+    try:
+        tree = project.proj_section(cfg, rec, top=True) if rec else None
+    except Exception as e:
+        tree = {"unprojectable": "%s: %s" % (type(e).__name__, e)}
+    return {"r": "ok", "tree": tree}, (cfg, handler)
+
+
 def compare_outcome(want, got, check_tree=True):
     """want: m.out of the specification (JSON), got: load_text outcome.
     Returns the failing clause or None (C01 accept/reject + error family,
